@@ -221,7 +221,8 @@ def run_sfcf(pe, acc, case, d):
 def run_hadrons(pe, acc, case, d):
     from checks.c17 import check_obs
     T = 4
-    sets = {'even': list(range(10, 40, 3)), 'irregular': [2, 3, 5, 8, 9, 12, 13, 17, 18, 20]}
+    # 'trap': irregular numbers whose count and end points fit an equally spaced list (2, 4, ..., 16 has 8 members as well)
+    sets = {'even': list(range(10, 40, 3)), 'irregular': [2, 3, 5, 8, 9, 12, 13, 17, 18, 20], 'trap': [2, 4, 5, 7, 9, 12, 13, 16]}
     for sn, cfgs in sets.items():
         path = os.path.join(d, sn)
         sf.write_hadrons(path, 'meson_run', cfgs, T)
@@ -230,7 +231,7 @@ def run_hadrons(pe, acc, case, d):
             for m in range(len(sf.GAMMAS) ** 2):
                 a, b = sf.GAMMAS[m // len(sf.GAMMAS)], sf.GAMMAS[m % len(sf.GAMMAS)]
                 for how in ('meson-index', 'gammas'):
-                    idls = [None, cfgs[1:-1]] if sn == 'even' else [cfgs, cfgs[::2]]
+                    idls = [None, cfgs[1:-1]] if sn == 'even' else [cfgs, cfgs[::2]] if sn == 'irregular' else [cfgs, cfgs[:6]]
                     for idl in idls:
                         sub = dict(case, set=sn, m=m, how=how, idl=idl, order=order)
                         if order != list(range(len(cfgs) + 1)) and not (m in (0, 5) and how == 'gammas'):
